@@ -168,7 +168,7 @@ def run_profile(pid, tier, p, kind, base, seed, workers):
 
 def signature(pid, v):
     if v["kind"] == "predicate":
-        return {"property": pid, "bad": v["bad"], "op": v["op"]["name"]}
+        return {"property": pid, "bad": v["bad"], "op": v["op"].get("name", v["op"].get("a"))}
     return {"property": pid, "kind": v["kind"], "algo_profile": v["profile"]}
 
 
@@ -192,7 +192,7 @@ def check(pid, tier):
     return finish(pid, tier, t0, results, violations, samples)
 
 
-def finish(pid, tier, t0, results, violations, samples):
+def finish(pid, tier, t0, results, violations, samples, rule=None, assumptions=None, engine="mem"):
     known = [k for k in core.load_known() if k.get("property") == pid and k.get("status") == "open"]
     new, seen_known = [], {}
     for v in violations:
@@ -211,28 +211,28 @@ def finish(pid, tier, t0, results, violations, samples):
         "traces_validated_against_impl": sum(r["scripts"] for r in results),
         "evaluations": sum(r["scripts"] for r in results),
         "distinct_nontrivial": sum(r["nontrivial"] for r in results),
-        "rule": "one script per edge of the reachable graph of each bounded MC_MemCache model (TLC, VIEW hides "
+        "rule": rule or "one script per edge of the reachable graph of each bounded MC_MemCache model (TLC, VIEW hides "
                 "history), executed on the real foyer_memory::Cache and compared with the specification's "
                 "expected observation; plus seeded random behaviours driven by the harness, whose recorded "
                 "traces TLC validates against Trace_MemCache (every step, Inv in every state) and against the "
                 "per-property monitor; non-trivial = the observations contain a leave notification or a held "
                 "handle; distinct by construction (distinct edges / distinct seeds)",
         "tlc_trace_validated_scripts": sum(r.get("tlc_exact_scripts", 0) + r.get("tlc_prop_scripts", 0)
-                                           for r in results),
+                                           + r.get("tlc_trace_scripts", 0) for r in results),
         "mismatching_scripts": sum(r["mismatched"] for r in results),
         "drift_scripts": sum(r.get("drift", 0) for r in results),
         "profiles": results,
         "samples": samples or [{"note": "no trace sample"}],
         "exhaustive": True,
     }
-    core.write_evidence(pid, tier, "model_checking", coverage, [
+    core.write_evidence(pid, tier, "model_checking", coverage, assumptions or [
         "the exhaustive part covers the small constants of each profile only",
         "LFU: the count-min sketch is modelled by exact counters",
         "harness bookkeeping of held handles is trusted",
     ], time.time() - t0, len(new))
     if new:
         for v in new[:5]:
-            path = core.write_replay(pid, {"property": pid, "engine": "mem", "violation": v})
+            path = core.write_replay(pid, {"property": pid, "engine": engine, "violation": v})
             print(f"VIOLATION property={pid} replay={path}")
         return 1
     return 0
